@@ -432,12 +432,22 @@ class Extractor {
         }
     }
 
+    std::map<const Decl *, std::vector<std::string>> recTypedefs;   // record -> typedef names that denote it
+
     void record(const RecordDecl *RD) {
         if (!RD->isCompleteDefinition() || RD->isInvalidDecl()) return;
         std::string n = recName(RD);
         if (n.empty()) return;
         const ASTRecordLayout &L = Ctx.getASTRecordLayout(RD);
-        os << "{\"name\":" << jstr(n) << ",\"tag\":" << jstr(RD->getName().str()) << ",\"union\":"
+        os << "{\"name\":" << jstr(n) << ",\"tag\":" << jstr(RD->getName().str()) << ",\"typedefs\":[";
+        {
+            auto it = recTypedefs.find(RD->getCanonicalDecl());
+            if (it != recTypedefs.end()) {
+                bool f3 = true;
+                for (auto &tn : it->second) { if (!f3) os << ","; f3 = false; os << jstr(tn); }
+            }
+        }
+        os << "],\"union\":"
            << (RD->isUnion() ? "true" : "false") << ",\"size\":" << L.getSize().getQuantity()
            << ",\"align\":" << L.getAlignment().getQuantity() << ",\"file\":" << jstr(fileOf(RD->getLocation()))
            << ",\"fields\":[";
@@ -458,6 +468,11 @@ class Extractor {
                 if (FD->doesThisDeclarationHaveABody() && !SM.isInSystemHeader(FD->getLocation())) fns.push_back(FD);
                 return true;
             }
+            std::vector<const TypedefNameDecl *> tds;
+            bool VisitTypedefNameDecl(TypedefNameDecl *TD) {
+                if (!SM.isInSystemHeader(TD->getLocation())) tds.push_back(TD);
+                return true;
+            }
             bool VisitRecordDecl(RecordDecl *RD) {
                 if (RD->isCompleteDefinition() && !SM.isInSystemHeader(RD->getLocation())) recs.push_back(RD);
                 return true;
@@ -472,6 +487,11 @@ class Extractor {
             }
         } v(SM);
         v.TraverseDecl(TU);
+        for (auto *TD : v.tds) {
+            QualType U = TD->getUnderlyingType().getCanonicalType();
+            if (const RecordType *RT = U->getAs<RecordType>())
+                recTypedefs[RT->getDecl()->getCanonicalDecl()].push_back(TD->getNameAsString());
+        }
 
         os << "{\"functions\":[";
         bool first = true;
